@@ -162,6 +162,14 @@ fn schedule_fmt<V: CV>(ctl: &Arc<dsched::Ctl>, tmp: &std::path::Path, sc: &str, 
             let vals = ro.collect_range_at(0, usize::MAX >> 1);
             let mut o = Obs { len: vals.len(), n: vals.len(), ..Obs::default() };
             o.bad = vals.iter().enumerate().position(|(i, v)| v.to_u64() != want::<V::T>(i));
+            // … then the iterator-style and the point read paths of the clone (their own lock sections): a later read never
+            // sees fewer elements, and none of them may block for good against the writer
+            let cnt = ro.fold_range_at(0, usize::MAX >> 1, 0usize, |n, _v| n + 1);
+            let first = ro.collect_one_at(0).map(|v| v.to_u64());
+            let mut extra = vec!["r".to_string()];
+            if cnt < o.len { extra.push(format!("fold_range_at saw {cnt} elements after a read of {}: lengths went down", o.len)); }
+            if o.len > 0 && first != Some(want::<V::T>(0)) { extra.push(format!("collect_one_at(0) = {first:?} after a read of {} elements", o.len)); }
+            o.extra = extra;
             *obs.lock().unwrap() = o;
         } else {
             *obs.lock().unwrap() = battery::<V>(&ro);
